@@ -353,6 +353,830 @@ Proof.
       apply IH with (g := g). apply sinv_step_none; assumption.
 Qed.
 
+Lemma sinv_init :
+  bhp a = ohp -> bhp n0 = ohp + 1 -> bhp g0 = ohp ->
+  (forall s, bget n0 obi s = None) -> (forall s, bget n0 nb s = None) ->
+  (forall s, bget g0 obi s = bget a obi s) ->
+  (count_arr c n0 + count_arr c g0 = K)%nat ->
+  sinv a n0 g0 0 0.
+Proof.
+  intros H1 H2 H3 He1 He2 Hg HK. constructor; try assumption; try reflexivity.
+  - intros s' Hs'. lia.
+  - intros b s' e' [->| ->] E; [rewrite He1 in E|rewrite He2 in E]; discriminate.
+  - intros s0 e0 Hs0. lia.
+  - intros b1 s1 e1 b2 s2 e2 [->| ->] _ E; [rewrite He1 in E|rewrite He2 in E]; discriminate.
+  - intros s' Hs'. lia.
+  - intros s1 s2 e1 e2 E. rewrite He2 in E. discriminate.
+  - intros s' _. apply Hg.
+  - intros s' Hs'. lia.
+Qed.
+
 End OneBucket.
+
+(* Lemma 2: one whole bucket.  (The hypotheses "every element is live" and "has the right tag"
+   of the informal statement are not needed: the copy always clears the husk flag and keeps
+   the tag.) *)
+Theorem move_bucket_slots_spec ohp oldb newb obi :
+  ohp + 1 < 62 -> obi < 2 ^ ohp -> bhp oldb = ohp -> bhp newb = ohp + 1 ->
+  (forall s e, bget oldb obi s = Some e -> s < spb c) ->
+  (forall s e, bget oldb obi s = Some e -> cand ohp (ekey e) obi) ->
+  (forall s e s' e', bget oldb obi s = Some e -> bget oldb obi s' = Some e' -> ekey e = ekey e' -> s = s') ->
+  (forall s, bget newb obi s = None) ->
+  (forall s, bget newb (obi + 2 ^ ohp) s = None) ->
+  let nb := obi + 2 ^ ohp in
+  let r := move_bucket_slots c hash oldb newb obi 0 0 (N.to_nat (spb c)) in
+  let oldb' := fst r in
+  let newb' := snd r in
+  (* (a) frame of the new array *)
+  (bhp newb' = ohp + 1 /\ bdead newb' = bdead newb /\
+   forall b s, b <> obi -> b <> nb -> bget newb' b s = bget newb b s) /\
+  (* (b) every old element arrives, at its own slot of bucket obi or in bucket nb *)
+  (forall s e, bget oldb obi s = Some e ->
+     (bget newb' obi s = Some (live e) /\ cand (ohp + 1) (ekey e) obi) \/
+     (exists s', s' < spb c /\ bget newb' nb s' = Some (live e) /\ cand (ohp + 1) (ekey e) nb)) /\
+  (* nothing else is in the two buckets *)
+  (forall b s' e', (b = obi \/ b = nb) -> bget newb' b s' = Some e' ->
+     s' < spb c /\ ehusk e' = false /\
+     exists s e, bget oldb obi s = Some e /\ e' = live e /\ cand (ohp + 1) (ekey e) b /\ (b = obi -> s' = s)) /\
+  (* exactly once: no key twice in the two buckets *)
+  (forall b1 s1 e1 b2 s2 e2, (b1 = obi \/ b1 = nb) -> (b2 = obi \/ b2 = nb) ->
+     bget newb' b1 s1 = Some e1 -> bget newb' b2 s2 = Some e2 -> ekey e1 = ekey e2 -> b1 = b2 /\ s1 = s2) /\
+  (* bucket nb is filled at slots 0 .. m-1, in the order of the old slots *)
+  (exists m, m <= spb c /\ forall s', bget newb' nb s' <> None <-> s' < m) /\
+  (forall s1 s2 e1 e2, bget newb' nb s1 = Some e1 -> bget newb' nb s2 = Some e2 -> s1 < s2 ->
+     exists t1 t2 x1 x2, bget oldb obi t1 = Some x1 /\ bget oldb obi t2 = Some x2 /\
+       e1 = live x1 /\ e2 = live x2 /\ t1 < t2) /\
+  (* (c) the old array keeps its keys and values; moved elements become husks *)
+  (bhp oldb' = ohp /\
+   (forall b s, b <> obi -> bget oldb' b s = bget oldb b s) /\
+   (forall s, bget oldb' obi s = option_map (husk_of c) (bget oldb obi s))).
+Proof.
+  intros Hhp Hobi Ho Hn HBr HBc HBu He1 He2. cbv zeta.
+  assert (I0 : sinv ohp oldb newb oldb obi (count_arr c newb + count_arr c oldb)%nat oldb newb oldb 0 0).
+  { apply sinv_init; try assumption; reflexivity. }
+  destruct (mbs_sinv ohp oldb newb oldb obi _ Hhp Hobi HBr HBc HBu (N.to_nat (spb c)) oldb newb oldb 0 0 I0)
+    as [g' [ns' I]].
+  rewrite N2Nat.id, N.add_0_l in I.
+  destruct (move_bucket_slots c hash oldb newb obi 0 0 (N.to_nat (spb c))) as [o' n'].
+  cbn [fst snd] in *.
+  destruct I as [I1 I2 I3 I4 I5 I6 I7 I8 I9 I10 I11 I12 I13 I14 I15 I16 I17 I18].
+  repeat split.
+  - exact I2.
+  - exact I4.
+  - exact I9.
+  - intros s e E. destruct (I11 s e (HBr s e E) E) as [H|[s' [H1 H2]]].
+    + left. split; [exact H|].
+      destruct (I10 obi s (live e) (or_introl eq_refl) H) as [s0 [e0 [_ [F2 [F3 [F4 [F5 _]]]]]]].
+      specialize (F5 eq_refl). subst s0. rewrite E in F2. injection F2 as <-. exact F4.
+    + right. exists s'. split; [lia|]. split; [exact H2|].
+      destruct (I10 _ s' (live e) (or_intror eq_refl) H2) as [s0 [e0 [_ [F2 [F3 [F4 _]]]]]].
+      replace (ekey e) with (ekey e0); [exact F4|].
+      change (ekey (live e0) = ekey (live e)). rewrite <- F3. reflexivity.
+  - destruct (I10 b s' e' H H0) as [s0 [e0 [F1 [F2 [F3 [F4 [F5 F6]]]]]]].
+    destruct H as [->|E]; [rewrite (F5 eq_refl); exact F1|]. specialize (F6 E). lia.
+  - destruct (I10 b s' e' H H0) as [s0 [e0 [F1 [F2 [F3 _]]]]]. subst e'. reflexivity.
+  - destruct (I10 b s' e' H H0) as [s0 [e0 [F1 [F2 [F3 [F4 [F5 F6]]]]]]].
+    exists s0, e0. repeat split; assumption.
+  - apply (I12 b1 s1 e1 b2 s2 e2); assumption.
+  - apply (I12 b1 s1 e1 b2 s2 e2); assumption.
+  - exists ns'. split; [exact I5|]. intro s'. split.
+    + intro Hne. destruct (bget n' (obi + 2 ^ ohp) s') as [e'|] eqn:E; [|congruence].
+      destruct (I10 _ s' e' (or_intror eq_refl) E) as [s0 [e0 [_ [_ [_ [_ [_ F6]]]]]]].
+      apply F6. reflexivity.
+    + apply I13.
+  - exact I14.
+  - exact I1.
+  - exact I8.
+  - intro s. destruct (N.lt_ge_cases s (spb c)) as [L|G].
+    + apply I7. exact L.
+    + rewrite I6 by exact G. destruct (bget oldb obi s) as [e|] eqn:E; [|reflexivity].
+      specialize (HBr s e E). lia.
+Qed.
+
+(* ================================================================== 3. whole-array migration *)
+
+(* table fields other than the two arrays *)
+Definition same_scal (t t' : table) : Prop :=
+  nrem t' = nrem t /\ rc t' = rc t /\ mlfn t' = mlfn t /\ mlfd t' = mlfd t /\
+  mhp t' = mhp t /\ workers t' = workers t.
+
+Definition same_meta (t t' : table) : Prop := locks t' = locks t /\ same_scal t t'.
+
+Lemma same_scal_refl t : same_scal t t.
+Proof. repeat split. Qed.
+
+Lemma same_scal_trans t t' t'' : same_scal t t' -> same_scal t' t'' -> same_scal t t''.
+Proof.
+  intros [A2 [A3 [A4 [A5 [A6 A7]]]]] [B2 [B3 [B4 [B5 [B6 B7]]]]].
+  repeat split; congruence.
+Qed.
+
+Lemma same_meta_refl t : same_meta t t.
+Proof. repeat split. Qed.
+
+Lemma same_meta_trans t t' t'' : same_meta t t' -> same_meta t' t'' -> same_meta t t''.
+Proof.
+  intros [A1 [A2 [A3 [A4 [A5 [A6 A7]]]]]] [B1 [B2 [B3 [B4 [B5 [B6 B7]]]]]].
+  repeat split; congruence.
+Qed.
+
+Lemma move_bucket_proj t i :
+  old (move_bucket c hash t i) = fst (move_bucket_slots c hash (old t) (cur t) i 0 0 (N.to_nat (spb c))) /\
+  cur (move_bucket c hash t i) = snd (move_bucket_slots c hash (old t) (cur t) i 0 0 (N.to_nat (spb c))) /\
+  same_meta t (move_bucket c hash t i).
+Proof.
+  unfold move_bucket.
+  destruct (move_bucket_slots c hash (old t) (cur t) i 0 0 (N.to_nat (spb c))) as [o n].
+  repeat split.
+Qed.
+
+Section Migrate.
+Variable ohp : N.
+Variable a : barray.          (* the array being migrated, as it was before the doubling *)
+Hypothesis Hhp : ohp + 1 < 62.
+Hypothesis Ha : arr_ok a.
+Hypothesis Hbhp : bhp a = ohp.
+
+(* state of a migration in progress: D = the set of old buckets already moved;
+   o / n = old and new array; g = ghost, the old array minus the moved buckets *)
+Record minv (D : N -> Prop) (o n g : barray) : Prop := {
+  mi_ohp : bhp o = ohp;
+  mi_nhp : bhp n = ohp + 1;
+  mi_ghp : bhp g = ohp;
+  mi_dead : bdead n = false;
+  mi_old : forall b s, b < 2 ^ ohp -> ~ D b -> bget o b s = bget a b s;
+  mi_sound : forall b s e, bget n b s = Some e ->
+     s < spb c /\ cand (ohp + 1) (ekey e) b /\
+     exists b0 s0 e0, b0 < 2 ^ ohp /\ D b0 /\ bget a b0 s0 = Some e0 /\ e = live e0 /\
+                      (b = b0 \/ b = b0 + 2 ^ ohp);
+  mi_compl : forall b0 s0 e0, D b0 -> bget a b0 s0 = Some e0 -> exists b s, bget n b s = Some (live e0);
+  mi_uniq : forall b1 s1 e1 b2 s2 e2,
+     bget n b1 s1 = Some e1 -> bget n b2 s2 = Some e2 -> ekey e1 = ekey e2 -> b1 = b2 /\ s1 = s2;
+  mi_g_done : forall b s, b < 2 ^ ohp -> D b -> bget g b s = None;
+  mi_g_rest : forall b s, b < 2 ^ ohp -> ~ D b -> bget g b s = bget a b s;
+  mi_g_out : forall b s, 2 ^ ohp <= b -> bget g b s = None;
+  mi_count : (count_arr c n + count_arr c g = count_arr c a)%nat
+}.
+
+Lemma a_range b s e : bget a b s = Some e -> b < 2 ^ ohp /\ s < spb c.
+Proof. intro E. rewrite <- Hbhp. apply (ao_range _ _ _ Ha _ _ _ E). Qed.
+
+Lemma minv_ext D D' o n g :
+  (forall b, b < 2 ^ ohp -> (D b <-> D' b)) -> minv D o n g -> minv D' o n g.
+Proof.
+  intros HD [M1 M2 M3 M4 M5 M6 M7 M8 M9 M10 M11 M12]. constructor; try assumption.
+  - intros b s Hb Hn. apply M5; [exact Hb|]. intro F. apply Hn. apply HD; assumption.
+  - intros b s e E. destruct (M6 b s e E) as [F1 [F2 [b0 [s0 [e0 [F3 [F4 F5]]]]]]].
+    split; [exact F1|]. split; [exact F2|]. exists b0, s0, e0. split; [exact F3|].
+    split; [apply HD; assumption|exact F5].
+  - intros b0 s0 e0 Hd E. apply (M7 b0 s0 e0); [|exact E].
+    apply HD; [apply (a_range b0 s0 e0 E)|exact Hd].
+  - intros b s Hb Hd. apply M9; [exact Hb|]. apply HD; assumption.
+  - intros b s Hb Hn. apply M10; [exact Hb|]. intro F. apply Hn. apply HD; assumption.
+Qed.
+
+Lemma minv_init : minv (fun _ => False) a (bnew (ohp + 1)) a.
+Proof.
+  constructor; try reflexivity; try assumption.
+  - intros b s e E. rewrite bget_bnew in E. discriminate.
+  - intros b0 s0 e0 F. contradiction.
+  - intros b1 s1 e1 b2 s2 e2 E. rewrite bget_bnew in E. discriminate.
+  - intros b s _ F. contradiction.
+  - intros b s Hb. destruct (bget a b s) as [e|] eqn:E; [|reflexivity].
+    destruct (a_range b s e E) as [F _]. lia.
+  - rewrite count_arr_bnew. reflexivity.
+Qed.
+
+(* new buckets i and i + 2^ohp are still empty while old bucket i has not been moved *)
+Lemma minv_empty D o n g i :
+  minv D o n g -> i < 2 ^ ohp -> ~ D i ->
+  (forall s, bget n i s = None) /\ (forall s, bget n (i + 2 ^ ohp) s = None).
+Proof.
+  intros M Hi Hn. split; intro s.
+  - destruct (bget n i s) as [e|] eqn:E; [|reflexivity]. exfalso.
+    destruct (mi_sound _ _ _ _ M _ _ _ E) as [_ [_ [b0 [s0 [e0 [F1 [F2 [_ [_ F5]]]]]]]]].
+    destruct F5 as [F5|F5].
+    + subst b0. contradiction.
+    + set (p := 2 ^ ohp) in *. clearbody p. lia.
+  - destruct (bget n (i + 2 ^ ohp) s) as [e|] eqn:E; [|reflexivity]. exfalso.
+    destruct (mi_sound _ _ _ _ M _ _ _ E) as [_ [_ [b0 [s0 [e0 [F1 [F2 [_ [_ F5]]]]]]]]].
+    destruct F5 as [F5|F5].
+    + set (p := 2 ^ ohp) in *. clearbody p. lia.
+    + assert (b0 = i) by (set (p := 2 ^ ohp) in *; clearbody p; lia). subst b0. contradiction.
+Qed.
+
+(* moving one not-yet-moved bucket *)
+Lemma minv_step D o n g i :
+  minv D o n g -> i < 2 ^ ohp -> ~ D i ->
+  exists g',
+    minv (fun b => D b \/ b = i)
+         (fst (move_bucket_slots c hash o n i 0 0 (N.to_nat (spb c))))
+         (snd (move_bucket_slots c hash o n i 0 0 (N.to_nat (spb c)))) g'.
+Proof.
+  intros M Hi Hn.
+  destruct (minv_empty D o n g i M Hi Hn) as [He1 He2].
+  destruct M as [M1 M2 M3 M4 M5 M6 M7 M8 M9 M10 M11 M12].
+  assert (Hoi : forall s, bget o i s = bget a i s) by (intro s; apply M5; assumption).
+  assert (HBr : forall s e, bget o i s = Some e -> s < spb c).
+  { intros s e E. rewrite Hoi in E. apply (a_range i s e E). }
+  assert (HBc : forall s e, bget o i s = Some e -> cand ohp (ekey e) i).
+  { intros s e E. rewrite Hoi in E. rewrite <- Hbhp. apply (ao_place _ _ _ Ha _ _ _ E). }
+  assert (HBu : forall s e s' e', bget o i s = Some e -> bget o i s' = Some e' -> ekey e = ekey e' -> s = s').
+  { intros s e s' e' E E' Hk. rewrite Hoi in E, E'. apply (ao_uniq _ _ _ Ha _ _ _ _ _ _ E E' Hk). }
+  assert (I0 : sinv ohp o n g i (count_arr c n + count_arr c g)%nat o n g 0 0).
+  { apply sinv_init; try assumption; try reflexivity.
+    intro s. rewrite Hoi. apply M10; assumption. }
+  destruct (mbs_sinv ohp o n g i _ Hhp Hi HBr HBc HBu (N.to_nat (spb c)) o n g 0 0 I0) as [g' [ns' I]].
+  rewrite N2Nat.id, N.add_0_l in I.
+  destruct (move_bucket_slots c hash o n i 0 0 (N.to_nat (spb c))) as [o' n'].
+  cbn [fst snd] in *.
+  destruct I as [I1 I2 I3 I4 I5 I6 I7 I8 I9 I10 I11 I12 I13 I14 I15 I16 I17 I18].
+  set (nb := i + 2 ^ ohp) in *.
+  exists g'. constructor.
+  - exact I1.
+  - exact I2.
+  - exact I3.
+  - rewrite I4. exact M4.
+  - intros b s Hb Hnd. rewrite I8 by (intro F; apply Hnd; right; exact F).
+    apply M5; [exact Hb|]. intro F. apply Hnd. left. exact F.
+  - intros b s e E.
+    destruct (N.eq_dec b i) as [Ebi|Nbi]; [|destruct (N.eq_dec b nb) as [Ebn|Nbn]].
+    + destruct (I10 b s e (or_introl Ebi) E) as [s0 [e0 [F1 [F2 [F3 [F4 [F5 F6]]]]]]].
+      rewrite Hoi in F2. split; [rewrite (F5 Ebi); exact F1|]. split; [rewrite F3; exact F4|].
+      exists i, s0, e0. split; [exact Hi|]. split; [right; reflexivity|]. split; [exact F2|].
+      split; [exact F3|]. left. exact Ebi.
+    + destruct (I10 b s e (or_intror Ebn) E) as [s0 [e0 [F1 [F2 [F3 [F4 [F5 F6]]]]]]].
+      rewrite Hoi in F2. specialize (F6 Ebn). split; [lia|]. split; [rewrite F3; exact F4|].
+      exists i, s0, e0. split; [exact Hi|]. split; [right; reflexivity|]. split; [exact F2|].
+      split; [exact F3|]. right. exact Ebn.
+    + rewrite I9 in E by assumption.
+      destruct (M6 b s e E) as [F1 [F2 [b0 [s0 [e0 [F3 [F4 F5]]]]]]].
+      split; [exact F1|]. split; [exact F2|]. exists b0, s0, e0. split; [exact F3|].
+      split; [left; exact F4|exact F5].
+  - intros b0 s0 e0 Hd E. destruct (N.eq_dec b0 i) as [Eb|Nb].
+    + subst b0. assert (Hs0 : s0 < spb c) by (apply (a_range i s0 e0 E)).
+      rewrite <- Hoi in E. destruct (I11 s0 e0 Hs0 E) as [H|[s' [_ H]]].
+      * exists i, s0. exact H.
+      * exists nb, s'. exact H.
+    + destruct Hd as [Hd|Hd]; [|contradiction].
+      destruct (M7 b0 s0 e0 Hd E) as [b [s H]]. exists b, s.
+      rewrite I9; [exact H| |].
+      * intro F. subst b. rewrite He1 in H. discriminate.
+      * intro F. subst b. fold nb in He2. rewrite He2 in H. discriminate.
+  - intros b1 s1 e1 b2 s2 e2 E1 E2 Hk.
+    assert (Hcross : forall b s e b' s' e', (b = i \/ b = nb) -> ~ (b' = i \/ b' = nb) ->
+              bget n' b s = Some e -> bget n' b' s' = Some e' -> ekey e = ekey e' -> False).
+    { intros b s e b' s' e' Hin Hout E E' Hke.
+      destruct (I10 b s e Hin E) as [s0 [e0 [_ [F2 [F3 _]]]]]. rewrite Hoi in F2.
+      rewrite I9 in E' by (intro F; apply Hout; ((left; exact F) || (right; exact F))).
+      destruct (M6 b' s' e' E') as [_ [_ [b0 [s0' [e0' [_ [G4 [G5 [G6 _]]]]]]]]].
+      subst e e'. cbn [live ekey] in Hke.
+      destruct (ao_uniq _ _ _ Ha _ _ _ _ _ _ F2 G5 Hke) as [Eb _]. subst b0. contradiction. }
+    assert (Hdec : forall b, (b = i \/ b = nb) \/ ~ (b = i \/ b = nb)).
+    { intro b. destruct (N.eq_dec b i) as [E|N1]; [left; left; exact E|].
+      destruct (N.eq_dec b nb) as [E|N2]; [left; right; exact E|].
+      right. intros [F|F]; contradiction. }
+    destruct (Hdec b1) as [In1|Out1]; destruct (Hdec b2) as [In2|Out2].
+    + apply (I12 b1 s1 e1 b2 s2 e2); assumption.
+    + exfalso. apply (Hcross b1 s1 e1 b2 s2 e2); assumption.
+    + exfalso. apply (Hcross b2 s2 e2 b1 s1 e1); try assumption. symmetry. exact Hk.
+    + rewrite I9 in E1 by (intro F; apply Out1; ((left; exact F) || (right; exact F))).
+      rewrite I9 in E2 by (intro F; apply Out2; ((left; exact F) || (right; exact F))).
+      apply (M8 b1 s1 e1 b2 s2 e2); assumption.
+  - intros b s Hb Hd. destruct (N.eq_dec b i) as [Eb|Nb].
+    + subst b. destruct (N.lt_ge_cases s (spb c)) as [L|G].
+      * apply I16. exact L.
+      * rewrite I15 by exact G. destruct (bget o i s) as [e|] eqn:E; [|reflexivity].
+        specialize (HBr s e E). lia.
+    + destruct Hd as [Hd|Hd]; [|contradiction].
+      rewrite I17 by exact Nb. apply M9; assumption.
+  - intros b s Hb Hnd.
+    assert (Nb : b <> i) by (intro F; apply Hnd; right; exact F).
+    rewrite I17 by exact Nb. apply M10; [exact Hb|]. intro F. apply Hnd. left. exact F.
+  - intros b s Hb.
+    assert (Nb : b <> i) by lia.
+    rewrite I17 by exact Nb. apply M11. exact Hb.
+  - rewrite I18. exact M12.
+Qed.
+
+(* every old bucket moved: the new array is a well-formed table with the same contents *)
+Lemma minv_final D o n g :
+  minv D o n g -> (forall b, b < 2 ^ ohp -> D b) ->
+  arr_ok n /\ bhp n = ohp + 1 /\ bdead n = false /\
+  (forall k v, holds n k v <-> holds a k v) /\
+  count_arr c n = count_arr c a.
+Proof.
+  intros [M1 M2 M3 M4 M5 M6 M7 M8 M9 M10 M11 M12] Hall.
+  split; [|split; [exact M2|split; [exact M4|split]]].
+  - constructor.
+    + rewrite M2. exact Hhp.
+    + intros b s e E. destruct (M6 b s e E) as [F1 [_ [b0 [s0 [e0 [F3 [_ [_ [_ F5]]]]]]]]].
+      split; [|exact F1]. rewrite M2, pow2_succ_double.
+      set (p := 2 ^ ohp) in *. clearbody p. lia.
+    + intros b s e E. destruct (M6 b s e E) as [_ [_ [b0 [s0 [e0 [_ [_ [_ [F4 _]]]]]]]]].
+      subst e. reflexivity.
+    + intros b s e E. rewrite M2. apply (M6 b s e E).
+    + intros b s e E. destruct (M6 b s e E) as [_ [_ [b0 [s0 [e0 [_ [_ [F3 [F4 _]]]]]]]]].
+      subst e. cbn [live epart ekey]. apply (ao_tag _ _ _ Ha _ _ _ F3).
+    + exact M8.
+  - intros k v. split.
+    + intros [b [s [e [E [Hk Hv]]]]].
+      destruct (M6 b s e E) as [_ [_ [b0 [s0 [e0 [_ [_ [F3 [F4 _]]]]]]]]].
+      subst e. exists b0, s0, e0. split; [exact F3|]. split; [exact Hk|exact Hv].
+    + intros [b0 [s0 [e0 [E [Hk Hv]]]]].
+      destruct (M7 b0 s0 e0 (Hall b0 (proj1 (a_range b0 s0 e0 E))) E) as [b [s H]].
+      exists b, s, (live e0). split; [exact H|]. split; [exact Hk|exact Hv].
+  - assert (Hg : count_arr c g = O).
+    { apply count_arr_empty. intros b s. destruct (N.lt_ge_cases b (2 ^ ohp)) as [L|G].
+      - apply M9; [exact L|apply Hall; exact L].
+      - apply M11. exact G. }
+    lia.
+Qed.
+
+Lemma move_bucket_minv D t g i :
+  minv D (old t) (cur t) g -> i < 2 ^ ohp -> ~ D i ->
+  exists g', minv (fun b => D b \/ b = i) (old (move_bucket c hash t i)) (cur (move_bucket c hash t i)) g'.
+Proof.
+  intros M Hi Hn. destruct (move_bucket_proj t i) as [E1 [E2 _]]. rewrite E1, E2.
+  apply minv_step with (g := g); assumption.
+Qed.
+
+Lemma mab_minv n : forall t i g,
+  minv (fun b => b < i) (old t) (cur t) g -> i + N.of_nat n <= 2 ^ ohp ->
+  (exists g', minv (fun b => b < i + N.of_nat n)
+                   (old (move_all_buckets c hash t i n)) (cur (move_all_buckets c hash t i n)) g') /\
+  same_meta t (move_all_buckets c hash t i n).
+Proof.
+  induction n as [|n IH]; intros t i g M Hle.
+  - cbn [move_all_buckets]. split; [|apply same_meta_refl].
+    exists g. apply (minv_ext (fun b => b < i)); [|exact M]. intros b _. lia.
+  - cbn [move_all_buckets].
+    assert (Hi : i < 2 ^ ohp) by (set (p := 2 ^ ohp) in *; clearbody p; lia).
+    assert (Hni : ~ i < i) by lia.
+    assert (Hle' : i + 1 + N.of_nat n <= 2 ^ ohp) by (set (p := 2 ^ ohp) in *; clearbody p; lia).
+    destruct (move_bucket_minv (fun b => b < i) t g i M Hi Hni) as [g1 M1].
+    assert (M1' : minv (fun b => b < i + 1) (old (move_bucket c hash t i)) (cur (move_bucket c hash t i)) g1).
+    { apply (minv_ext (fun b => b < i \/ b = i)); [|exact M1]. intros b _. lia. }
+    destruct (IH (move_bucket c hash t i) (i + 1) g1 M1' Hle') as [[g2 M2] S2].
+    split.
+    + exists g2. apply (minv_ext (fun b => b < i + 1 + N.of_nat n)); [|exact M2]. intros b _. lia.
+    + apply (same_meta_trans _ (move_bucket c hash t i)); [|exact S2].
+      apply (move_bucket_proj t i).
+Qed.
+
+End Migrate.
+
+(* Lemma 3: the immediate migration of a whole array *)
+Theorem move_all_buckets_spec a ohp t :
+  arr_ok a -> bhp a = ohp -> ohp + 1 < 62 ->
+  old t = a -> cur t = bnew (ohp + 1) ->
+  let t' := move_all_buckets c hash t 0 (N.to_nat (2 ^ ohp)) in
+  arr_ok (cur t') /\ bhp (cur t') = ohp + 1 /\ bdead (cur t') = false /\
+  (forall k v, holds (cur t') k v <-> holds a k v) /\
+  count_arr c (cur t') = count_arr c a /\
+  locks t' = locks t /\ same_meta t t' /\ bhp (old t') = ohp.
+Proof.
+  intros Ha Hb Hhp Ho Hcur t'.
+  assert (M0 : minv ohp a (fun b => b < 0) (old t) (cur t) a).
+  { rewrite Ho, Hcur. apply (minv_ext ohp a Ha Hb (fun _ => False)).
+    - intros b _. lia.
+    - apply minv_init; assumption. }
+  destruct (mab_minv ohp a Hhp Ha Hb (N.to_nat (2 ^ ohp)) t 0 a M0) as [[g' M] S].
+  { rewrite N2Nat.id. lia. }
+  fold t' in M, S. rewrite N2Nat.id, N.add_0_l in M.
+  destruct (minv_final ohp a Hhp Ha Hb _ _ _ _ M) as [F1 [F2 [F3 [F4 F5]]]].
+  { intros b Hlt. exact Hlt. }
+  split; [exact F1|]. split; [exact F2|]. split; [exact F3|]. split; [exact F4|].
+  split; [exact F5|]. split; [apply S|]. split; [exact S|]. apply (mi_ohp _ _ _ _ _ _ M).
+Qed.
+
+(* ================================================================== 4. fast_double_body *)
+
+(* ---- side facts ---- *)
+
+Lemma rehash_all_settled n : forall t l, all_migrated t -> rehash_all c hash t l n = t.
+Proof.
+  induction n as [|n IH]; intros t l H; cbn [rehash_all]; [reflexivity|].
+  rewrite (rehash_lock_settled c hash false t l H). apply IH. exact H.
+Qed.
+
+Lemma set_nrem_zero t : set_nrem t 0 = set_old (set_nrem_raw t 0) (bdealloc (old t)).
+Proof. reflexivity. Qed.
+
+Lemma set_nrem_fields t n :
+  cur (set_nrem t n) = cur t /\ locks (set_nrem t n) = locks t /\ nrem (set_nrem t n) = n /\
+  rc (set_nrem t n) = rc t /\ mlfn (set_nrem t n) = mlfn t /\ mlfd (set_nrem t n) = mlfd t /\
+  mhp (set_nrem t n) = mhp t /\ workers (set_nrem t n) = workers t.
+Proof. unfold set_nrem. destruct (n =? 0); repeat split. Qed.
+
+Lemma set_nrem_nonzero t n : n <> 0 -> set_nrem t n = set_nrem_raw t n.
+Proof. intro H. unfold set_nrem. apply N.eqb_neq in H. rewrite H. reflexivity. Qed.
+
+Lemma all_migrated_locks t t' : locks t' = locks t -> all_migrated t -> all_migrated t'.
+Proof. intros E H l Hin. apply H. unfold cur_locks in *. rewrite <- E. exact Hin. Qed.
+
+Lemma cur_locks_locks t t' : locks t' = locks t -> cur_locks t' = cur_locks t.
+Proof. intro E. unfold cur_locks. rewrite E. reflexivity. Qed.
+
+Lemma kmax_pos : 0 < kmax c.
+Proof. unfold kmax. apply pow2_pos. Qed.
+
+Lemma lockind_spec b : lock_ind_gen (kmax c) b = b mod kmax c.
+Proof. unfold kmax. apply lock_ind_gen_spec. apply (co_lbits _ Hc). Qed.
+
+(* a lock array of at least min(kmax, 2^hp) stripes covers every bucket of hashpower hp *)
+Lemma cover_min hp len :
+  (N.to_nat (N.min (kmax c) (2 ^ hp)) <= len)%nat ->
+  forall b, b < 2 ^ hp -> (N.to_nat (lock_ind_gen (kmax c) b) < len)%nat.
+Proof.
+  intros Hlen b Hb. rewrite lockind_spec.
+  assert (H1 : b mod kmax c < kmax c) by (apply N.mod_lt; assert (H := kmax_pos); lia).
+  assert (H2 : b mod kmax c <= b) by (apply N.mod_le; assert (H := kmax_pos); lia).
+  set (m := b mod kmax c) in *. set (p := 2 ^ hp) in *. set (k := kmax c) in *. clearbody m p k.
+  lia.
+Qed.
+
+(* ---- the common prefix of fast_double_body: finish pending work, grow the lock array,
+        swap the arrays ---- *)
+Definition fd_t3 (t : table) (new_hp : N) : table :=
+  let t1 := set_nrem (rehash_all c hash t 0 (length (cur_locks t))) 0 in
+  let t2 := maybe_resize_locks c t1 (wrap64 (N.shiftl 1 new_hp)) in
+  set_cur (set_old t2 (cur t2)) (bnew new_hp).
+
+Lemma fast_double_body_unfold mode t new_hp :
+  fast_double_body c hash mode t new_hp =
+  let t3 := fd_t3 t new_hp in
+  let t4 :=
+    if hashsize (bhp (old t3)) <? kmax c then
+      set_nrem (move_all_buckets c hash t3 0 (N.to_nat (hashsize (bhp (old t3))))) 0
+    else
+      let t5 := set_nrem (set_all_unmigrated t3) (N.of_nat (length (cur_locks t3))) in
+      if mode then rehash_with_workers c hash t5 else t5 in
+  set_rc t4 (wrap64 (rc t4 + 1)).
+Proof. reflexivity. Qed.
+
+Lemma fd_t3_spec t :
+  settled t -> bhp (cur t) + 1 < 62 ->
+  let hp := bhp (cur t) in
+  let t3 := fd_t3 t (hp + 1) in
+  cur t3 = bnew (hp + 1) /\ old t3 = cur t /\ all_migrated t3 /\ locks t3 <> [] /\
+  sum_cnt (cur_locks t3) = sum_cnt (cur_locks t) /\
+  length (cur_locks t3) = Nat.max (length (cur_locks t)) (N.to_nat (N.min (kmax c) (2 ^ (hp + 1)))) /\
+  nrem t3 = 0 /\ rc t3 = rc t /\ mlfn t3 = mlfn t /\ mlfd t3 = mlfd t /\ mhp t3 = mhp t /\
+  workers t3 = workers t.
+Proof.
+  intros St Hhp hp t3. subst t3. unfold fd_t3.
+  rewrite (rehash_all_settled _ t 0 (se_mig _ _ _ St)).
+  rewrite (wrap64_shiftl_small (hp + 1)) by (subst hp; lia).
+  set (t1 := set_nrem t 0).
+  destruct (set_nrem_fields t 0) as [F1 [F2 [F3 [F4 [F5 [F6 [F7 F8]]]]]]]. fold t1 in F1, F2, F3, F4, F5, F6, F7, F8.
+  assert (Hcl : cur_locks t1 = cur_locks t) by (apply cur_locks_locks; exact F2).
+  set (t2 := maybe_resize_locks c t1 (2 ^ (hp + 1))).
+  destruct (maybe_resize_locks_scalars c t1 (2 ^ (hp + 1))) as [G1 [G2 [G3 [G4 [G5 G6]]]]].
+  fold t2 in G1, G2, G3, G4, G5, G6.
+  cbn [cur old locks nrem rc mlfn mlfd mhp workers set_cur set_old].
+  change (cur_locks (set_cur (set_old t2 (cur t2)) (bnew (hp + 1)))) with (cur_locks t2).
+  split; [reflexivity|].
+  split; [subst t2; rewrite maybe_resize_locks_cur; exact F1|].
+  split.
+  { apply (all_migrated_locks t2); [reflexivity|]. subst t2. apply maybe_resize_locks_all_migrated.
+    apply (all_migrated_locks t); [exact F2|]. apply (se_mig _ _ _ St). }
+  split.
+  { subst t2. apply maybe_resize_locks_nonnil. rewrite F2. apply (se_locks _ _ _ St). }
+  split.
+  { subst t2. rewrite maybe_resize_locks_sum, Hcl. reflexivity. }
+  split.
+  { subst t2. rewrite maybe_resize_locks_length_eq, Hcl. reflexivity. }
+  repeat split; congruence.
+Qed.
+
+(* ---- the small-table branch: immediate migration of all buckets ---- *)
+Lemma fast_double_body_small mode t :
+  settled t -> counted c t -> bhp (cur t) + 1 < 62 ->
+  hashsize (bhp (cur t)) < kmax c ->
+  let t' := fast_double_body c hash mode t (bhp (cur t) + 1) in
+  settled t' /\ counted c t' /\ bhp (cur t') = bhp (cur t) + 1 /\
+  (forall k v, holds (cur t') k v <-> holds (cur t) k v) /\
+  rc t' = wrap64 (rc t + 1) /\ mlfn t' = mlfn t /\ mlfd t' = mlfd t /\ mhp t' = mhp t /\
+  workers t' = workers t /\ nrem t' = 0 /\
+  length (cur_locks t') = Nat.max (length (cur_locks t)) (N.to_nat (N.min (kmax c) (2 ^ (bhp (cur t) + 1)))).
+Proof.
+  intros St Hcnt Hhp Hsmall t'. subst t'. rewrite fast_double_body_unfold. cbv zeta.
+  destruct (fd_t3_spec t St Hhp) as [T1 [T2 [T3 [T4 [T5 [T6 [T7 [T8 [T9 [T10 [T11 T12]]]]]]]]]]].
+  cbv zeta in T1, T2, T3, T4, T5, T6, T7, T8, T9, T10, T11, T12.
+  set (hp := bhp (cur t)) in *.
+  set (t3 := fd_t3 t (hp + 1)) in *.
+  rewrite T2. fold hp.
+  assert (Hlt : (hashsize hp <? kmax c) = true) by (apply N.ltb_lt; exact Hsmall).
+  rewrite Hlt. rewrite (hashsize_spec hp) by lia.
+  destruct (move_all_buckets_spec (cur t) hp t3 (se_arr _ _ _ St) eq_refl Hhp T2 T1)
+    as [A1 [A2 [A3 [A4 [A5 [A6 [[_ [A7 [A8 [A9 [A10 [A11 A12]]]]]] _]]]]]]].
+  set (tm := move_all_buckets c hash t3 0 (N.to_nat (2 ^ hp))) in *.
+  destruct (set_nrem_fields tm 0) as [F1 [F2 [F3 [F4 [F5 [F6 [F7 F8]]]]]]].
+  set (t4 := set_nrem tm 0) in *.
+  assert (Hcl : cur_locks t4 = cur_locks t3).
+  { apply cur_locks_locks. rewrite F2. exact A6. }
+  cbn [cur old locks nrem rc mlfn mlfd mhp workers set_rc].
+  change (cur_locks (set_rc t4 (wrap64 (rc t4 + 1)))) with (cur_locks t4).
+  split.
+  { constructor; cbn [cur set_rc].
+    - rewrite F1. exact A1.
+    - rewrite F1. exact A3.
+    - apply (all_migrated_locks t3); [cbn [locks set_rc]; rewrite F2; exact A6|exact T3].
+    - cbn [locks set_rc]. rewrite F2, A6. exact T4.
+    - intros b Hb. change (cur_locks (set_rc t4 (wrap64 (rc t4 + 1)))) with (cur_locks t4).
+      rewrite Hcl, T6. rewrite F1, A2 in Hb.
+      apply (cover_min (hp + 1)); [lia|exact Hb]. }
+  split.
+  { unfold counted. cbn [cur set_rc].
+    change (cur_locks (set_rc t4 (wrap64 (rc t4 + 1)))) with (cur_locks t4).
+    rewrite Hcl, T5, F1, A5. exact Hcnt. }
+  split; [rewrite F1; exact A2|].
+  split; [intros k v; rewrite F1; apply A4|].
+  split; [rewrite F4, A8, T8; reflexivity|].
+  split; [congruence|]. split; [congruence|]. split; [congruence|]. split; [congruence|].
+  split; [exact F3|].
+  rewrite Hcl. exact T6.
+Qed.
+
+(* ---- the large-table branch in locked-table mode: every stripe is migrated at once,
+        stripe l moving old buckets l, l + kmax, l + 2 kmax, ... ---- *)
+
+Section Stripes.
+Variable ohp : N.
+Variable a : barray.
+Hypothesis Hhp : ohp + 1 < 62.
+Hypothesis Ha : arr_ok a.
+Hypothesis Hbhp : bhp a = ohp.
+
+Notation minv := (minv ohp a).
+
+(* old buckets already moved when stripe l has done j iterations of its loop *)
+Definition Ds (l j b : N) : Prop :=
+  b mod kmax c < l \/ (b mod kmax c = l /\ b / kmax c < j).
+
+Lemma stripe_bucket_mod l j : l < kmax c -> (l + j * kmax c) mod kmax c = l.
+Proof.
+  intro Hl. rewrite N.mod_add by lia. apply N.mod_small. exact Hl.
+Qed.
+
+Lemma stripe_bucket_div l j : l < kmax c -> (l + j * kmax c) / kmax c = j.
+Proof.
+  intro Hl. rewrite N.div_add by lia. rewrite N.div_small by exact Hl. lia.
+Qed.
+
+Lemma stripe_bucket_eq l j b :
+  l < kmax c -> (b = l + j * kmax c <-> b mod kmax c = l /\ b / kmax c = j).
+Proof.
+  intro Hl. split.
+  - intros ->. split; [apply stripe_bucket_mod|apply stripe_bucket_div]; exact Hl.
+  - intros [H1 H2]. assert (H := N.div_mod b (kmax c) ltac:(lia)).
+    rewrite H1, H2 in H. rewrite H. lia.
+Qed.
+
+Lemma Ds_step l j b : l < kmax c -> ((Ds l j b \/ b = l + j * kmax c) <-> Ds l (j + 1) b).
+Proof.
+  intro Hl. unfold Ds. rewrite (stripe_bucket_eq l j b Hl).
+  set (m := b mod kmax c). set (d := b / kmax c). clearbody m d. lia.
+Qed.
+
+Lemma Ds_not l j : l < kmax c -> ~ Ds l j (l + j * kmax c).
+Proof.
+  intro Hl. unfold Ds. rewrite stripe_bucket_mod, stripe_bucket_div by exact Hl. lia.
+Qed.
+
+Lemma Ds_done l j b :
+  l < kmax c -> 2 ^ ohp <= l + j * kmax c -> b < 2 ^ ohp -> (Ds l j b <-> Ds (l + 1) 0 b).
+Proof.
+  intros Hl Hend Hb. unfold Ds.
+  assert (Hk := kmax_pos).
+  assert (H := N.div_mod b (kmax c) ltac:(lia)).
+  assert (Hm : b mod kmax c < kmax c) by (apply N.mod_lt; lia).
+  assert (Hd : b mod kmax c = l -> b / kmax c < j).
+  { intro E. destruct (N.lt_ge_cases (b / kmax c) j) as [L|G]; [exact L|exfalso].
+    assert (G' : kmax c * j <= kmax c * (b / kmax c)) by (apply N.mul_le_mono_l; exact G).
+    rewrite E in H.
+    replace (j * kmax c) with (kmax c * j) in Hend by apply N.mul_comm.
+    set (p := 2 ^ ohp) in *. set (x := kmax c * (b / kmax c)) in *.
+    set (y := kmax c * j) in *. clearbody p x y. lia. }
+  clear H.
+  set (m := b mod kmax c) in *. set (d := b / kmax c) in *. set (p := 2 ^ ohp) in *.
+  set (k := kmax c) in *. clearbody m d p k.
+  split.
+  - intros [H1|[H1 _]]; left; lia.
+  - intros [H1|[_ H1]]; [|lia].
+    destruct (N.eq_dec m l) as [E|Ne]; [|left; lia].
+    right. split; [exact E|]. apply Hd. exact E.
+Qed.
+
+(* the bucket loop of one stripe *)
+Lemma rll_minv l (Hl : l < kmax c) n : forall t j g bi,
+  bi = l + j * kmax c ->
+  minv (Ds l j) (old t) (cur t) g ->
+  exists j' g',
+    minv (Ds l j') (old (rehash_lock_loop c hash t bi n)) (cur (rehash_lock_loop c hash t bi n)) g' /\
+    same_meta t (rehash_lock_loop c hash t bi n) /\
+    (2 ^ ohp <= l + j' * kmax c \/ j' = j + N.of_nat n).
+Proof.
+  induction n as [|n IH]; intros t j g bi Hbi M.
+  - exists j, g. cbn [rehash_lock_loop]. split; [exact M|]. split; [apply same_meta_refl|right; lia].
+  - cbn [rehash_lock_loop]. rewrite (mi_ohp _ _ _ _ _ _ M). rewrite hashsize_spec by lia.
+    destruct (bi <? 2 ^ ohp) eqn:E.
+    + apply N.ltb_lt in E.
+      assert (Hnot : ~ Ds l j bi) by (rewrite Hbi; apply Ds_not; exact Hl).
+      destruct (move_bucket_minv ohp a Hhp Ha Hbhp (Ds l j) t g bi M E Hnot) as [g1 M1].
+      assert (M1' : minv (Ds l (j + 1)) (old (move_bucket c hash t bi)) (cur (move_bucket c hash t bi)) g1).
+      { apply (minv_ext ohp a Ha Hbhp (fun b => Ds l j b \/ b = bi)); [|exact M1].
+        intros b _. rewrite Hbi. apply Ds_step. exact Hl. }
+      assert (Hbi' : bi + kmax c = l + (j + 1) * kmax c).
+      { rewrite Hbi, N.mul_add_distr_r. lia. }
+      destruct (IH (move_bucket c hash t bi) (j + 1) g1 (bi + kmax c) Hbi' M1') as [j' [g' [M' [S' Hj]]]].
+      exists j', g'. split; [exact M'|]. split.
+      * apply (same_meta_trans _ (move_bucket c hash t bi)); [apply (move_bucket_proj t bi)|exact S'].
+      * destruct Hj as [Hj|Hj]; [left; exact Hj|right; lia].
+    + apply N.ltb_ge in E. exists j, g. split; [exact M|]. split; [apply same_meta_refl|].
+      left. rewrite <- Hbi. exact E.
+Qed.
+
+(* the state of the current lock array while stripes < l are done and stripes >= l are pending *)
+Definition lk_state (S : Z) (l : N) (t : table) : Prop :=
+  locks t <> [] /\ length (cur_locks t) = N.to_nat (kmax c) /\
+  (forall j, (j < N.to_nat l)%nat -> mig (nth j (cur_locks t) dflt_lock) = true) /\
+  (forall j, (N.to_nat l <= j < N.to_nat (kmax c))%nat -> mig (nth j (cur_locks t) dflt_lock) = false) /\
+  sum_cnt (cur_locks t) = S.
+
+Lemma rehash_lock_stripe S l t g :
+  l < kmax c -> minv (Ds l 0) (old t) (cur t) g -> lk_state S l t ->
+  (exists g', minv (Ds (l + 1) 0) (old (rehash_lock c hash false t l)) (cur (rehash_lock c hash false t l)) g') /\
+  lk_state S (l + 1) (rehash_lock c hash false t l) /\
+  same_scal t (rehash_lock c hash false t l).
+Proof.
+  intros Hl M [L1 [L2 [L3 [L4 L5]]]]. unfold rehash_lock.
+  assert (Hmig : mig (lock_at t l) = false).
+  { unfold lock_at. apply L4. lia. }
+  rewrite Hmig.
+  set (iters := N.to_nat (hashsize (bhp (old t)) / kmax c + 1)).
+  assert (Hbi : l = l + 0 * kmax c) by lia.
+  destruct (rll_minv l Hl iters t 0 g l Hbi M) as [j' [g' [M' [[S1 S2] Hj]]]].
+  set (t1 := rehash_lock_loop c hash t l iters) in *.
+  assert (Hend : 2 ^ ohp <= l + j' * kmax c).
+  { destruct Hj as [Hj|Hj]; [exact Hj|].
+    subst iters. rewrite (mi_ohp _ _ _ _ _ _ M), hashsize_spec in Hj by lia.
+    rewrite N2Nat.id in Hj. rewrite Hj.
+    assert (H := N.mul_succ_div_gt (2 ^ ohp) (kmax c) ltac:(lia)).
+    rewrite <- N.add_1_r in H. rewrite N.add_0_l.
+    replace ((2 ^ ohp / kmax c + 1) * kmax c) with (kmax c * (2 ^ ohp / kmax c + 1)) by apply N.mul_comm.
+    set (p := 2 ^ ohp) in *. set (x := kmax c * (p / kmax c + 1)) in *. clearbody p x. lia. }
+  assert (Hcl : cur_locks t1 = cur_locks t) by (apply cur_locks_locks; exact S1).
+  assert (Hne1 : locks t1 <> []) by (rewrite S1; exact L1).
+  set (f := fun lk : lockm => {| cnt := cnt lk; mig := true |}).
+  assert (Hcl2 : cur_locks (upd_cur_lock t1 l f) = upd (N.to_nat l) f (cur_locks t)).
+  { rewrite st_cur_locks_upd_cur_lock by exact Hne1. rewrite Hcl. reflexivity. }
+  split; [|split].
+  - exists g'. change (old (upd_cur_lock t1 l f)) with (old t1). change (cur (upd_cur_lock t1 l f)) with (cur t1).
+    apply (minv_ext ohp a Ha Hbhp (Ds l j')); [|exact M'].
+    intros b Hb. apply Ds_done; assumption.
+  - unfold lk_state. rewrite Hcl2. split; [apply st_locks_upd_cur_lock_nonnil; exact Hne1|].
+    split; [rewrite st_upd_length; exact L2|].
+    assert (Hll : (N.to_nat l < length (cur_locks t))%nat) by lia.
+    split; [|split].
+    + intros j Hj'. destruct (Nat.eq_dec j (N.to_nat l)) as [->|Ne].
+      * rewrite nth_upd_same by exact Hll. reflexivity.
+      * rewrite nth_upd_other by congruence. apply L3. lia.
+    + intros j Hj'. rewrite nth_upd_other by lia. apply L4. lia.
+    + rewrite sum_cnt_upd by exact Hll. subst f. cbn [cnt]. lia.
+  - destruct S2 as [B2 [B3 [B4 [B5 [B6 B7]]]]]. repeat split; assumption.
+Qed.
+
+Lemma ra_stripes S n : forall t l g,
+  l + N.of_nat n <= kmax c -> minv (Ds l 0) (old t) (cur t) g -> lk_state S l t ->
+  (exists g', minv (Ds (l + N.of_nat n) 0) (old (rehash_all c hash t l n)) (cur (rehash_all c hash t l n)) g') /\
+  lk_state S (l + N.of_nat n) (rehash_all c hash t l n) /\
+  same_scal t (rehash_all c hash t l n).
+Proof.
+  induction n as [|n IH]; intros t l g Hle M L.
+  - cbn [rehash_all]. replace (l + N.of_nat 0) with l by lia.
+    split; [exists g; exact M|]. split; [exact L|apply same_scal_refl].
+  - cbn [rehash_all].
+    destruct (rehash_lock_stripe S l t g ltac:(lia) M L) as [[g1 M1] [L1 S1]].
+    destruct (IH (rehash_lock c hash false t l) (l + 1) g1 ltac:(lia) M1 L1) as [[g2 M2] [L2 S2]].
+    replace (l + N.of_nat (Datatypes.S n)) with (l + 1 + N.of_nat n) by lia.
+    split; [exists g2; exact M2|]. split; [exact L2|].
+    apply (same_scal_trans _ (rehash_lock c hash false t l)); assumption.
+Qed.
+
+End Stripes.
+
+Lemma nth_map_lt {A B} (f : A -> B) (l : list A) (d : A) (d' : B) j :
+  (j < length l)%nat -> nth j (map f l) d' = f (nth j l d).
+Proof.
+  intro Hj. rewrite (nth_indep (map f l) d' (f d)) by (rewrite map_length; exact Hj).
+  apply map_nth.
+Qed.
+
+(* the large-table branch, locked-table mode (every stripe migrated before returning).
+   Extra hypothesis: the current lock array has at most kmax stripes ([settled] gives no
+   upper bound on its length). *)
+Lemma fast_double_body_locked t :
+  settled t -> counted c t -> bhp (cur t) + 1 < 62 ->
+  kmax c <= hashsize (bhp (cur t)) ->
+  (length (cur_locks t) <= N.to_nat (kmax c))%nat ->
+  let t' := fast_double_body c hash true t (bhp (cur t) + 1) in
+  settled t' /\ counted c t' /\ bhp (cur t') = bhp (cur t) + 1 /\
+  (forall k v, holds (cur t') k v <-> holds (cur t) k v) /\
+  rc t' = wrap64 (rc t + 1) /\ mlfn t' = mlfn t /\ mlfd t' = mlfd t /\ mhp t' = mhp t /\
+  workers t' = workers t /\ nrem t' = 0 /\
+  length (cur_locks t') = Nat.max (length (cur_locks t)) (N.to_nat (N.min (kmax c) (2 ^ (bhp (cur t) + 1)))).
+Proof.
+  intros St Hcnt Hhp Hbig Hlen t'. subst t'. rewrite fast_double_body_unfold. cbv zeta.
+  destruct (fd_t3_spec t St Hhp) as [T1 [T2 [T3 [T4 [T5 [T6 [T7 [T8 [T9 [T10 [T11 T12]]]]]]]]]]].
+  cbv zeta in T1, T2, T3, T4, T5, T6, T7, T8, T9, T10, T11, T12.
+  set (hp := bhp (cur t)) in *.
+  set (t3 := fd_t3 t (hp + 1)) in *.
+  rewrite T2. fold hp.
+  assert (Hge : (hashsize hp <? kmax c) = false) by (apply N.ltb_ge; exact Hbig).
+  rewrite Hge. rewrite (hashsize_spec hp) in Hbig by lia.
+  assert (Hkpos := kmax_pos).
+  assert (Hmin : N.min (kmax c) (2 ^ (hp + 1)) = kmax c).
+  { apply N.min_l. rewrite pow2_succ_double. set (p := 2 ^ hp) in *. clearbody p. lia. }
+  rewrite Hmin in T6.
+  assert (HL : length (cur_locks t3) = N.to_nat (kmax c)) by lia.
+  assert (HLnz : N.of_nat (length (cur_locks t3)) <> 0) by lia.
+  rewrite (set_nrem_nonzero _ _ HLnz).
+  set (t5 := set_nrem_raw (set_all_unmigrated t3) (N.of_nat (length (cur_locks t3)))).
+  unfold rehash_with_workers.
+  set (f := fun lk : lockm => {| cnt := cnt lk; mig := false |}).
+  assert (Hcl5 : cur_locks t5 = map f (cur_locks t3)).
+  { change (cur_locks t5) with (cur_locks (set_all_unmigrated t3)).
+    unfold set_all_unmigrated. apply cur_locks_upd_last. exact T4. }
+  assert (Ha := se_arr _ _ _ St).
+  assert (M0 : minv hp (cur t) (Ds 0 0) (old t5) (cur t5) (cur t)).
+  { change (old t5) with (old t3). change (cur t5) with (cur t3). rewrite T1, T2.
+    apply (minv_ext hp (cur t) Ha eq_refl (fun _ => False)).
+    - intros b _. unfold Ds. set (m := b mod kmax c). set (d := b / kmax c). clearbody m d. lia.
+    - apply minv_init; [exact Hhp|exact Ha|reflexivity]. }
+  assert (L0 : lk_state (sum_cnt (cur_locks t)) 0 t5).
+  { unfold lk_state. rewrite Hcl5. split.
+    - change (locks t5) with (upd_last (map f) (locks t3)). apply st_upd_last_nonnil. exact T4.
+    - split; [rewrite map_length; exact HL|]. split; [intros j Hj; lia|]. split.
+      + intros j Hj. rewrite (nth_map_lt f (cur_locks t3) dflt_lock dflt_lock j) by lia. reflexivity.
+      + rewrite sum_cnt_map_same by (intro lk; reflexivity). exact T5. }
+  assert (Hlen5 : length (cur_locks t5) = N.to_nat (kmax c)) by (apply L0).
+  rewrite Hlen5.
+  destruct (ra_stripes hp (cur t) Hhp Ha eq_refl (sum_cnt (cur_locks t)) (N.to_nat (kmax c)) t5 0 (cur t))
+    as [[g' M] [[K1 [K2 [K3 [_ K5]]]] [R2 [R3 [R4 [R5 [R6 R7]]]]]]]; [lia|exact M0|exact L0|].
+  set (tr := rehash_all c hash t5 0 (N.to_nat (kmax c))) in *.
+  rewrite N2Nat.id, N.add_0_l in M, K3.
+  destruct (minv_final hp (cur t) Hhp Ha eq_refl _ _ _ _ M) as [A1 [A2 [A3 [A4 A5]]]].
+  { intros b _. unfold Ds. left. apply N.mod_lt. lia. }
+  destruct (set_nrem_fields tr 0) as [F1 [F2 [F3 [F4 [F5 [F6 [F7 F8]]]]]]].
+  set (t4 := set_nrem tr 0) in *.
+  assert (Hcl : cur_locks t4 = cur_locks tr) by (apply cur_locks_locks; exact F2).
+  cbn [cur old locks nrem rc mlfn mlfd mhp workers set_rc].
+  change (cur_locks (set_rc t4 (wrap64 (rc t4 + 1)))) with (cur_locks t4).
+  change (rc t5) with (rc t3) in R3. change (mlfn t5) with (mlfn t3) in R4.
+  change (mlfd t5) with (mlfd t3) in R5. change (mhp t5) with (mhp t3) in R6.
+  change (workers t5) with (workers t3) in R7.
+  split.
+  { constructor; cbn [cur set_rc].
+    - rewrite F1. exact A1.
+    - rewrite F1. exact A3.
+    - intros lk Hin. change (cur_locks (set_rc t4 (wrap64 (rc t4 + 1)))) with (cur_locks t4) in Hin.
+      rewrite Hcl in Hin. destruct (In_nth _ _ dflt_lock Hin) as [j [Hj Ej]].
+      rewrite <- Ej. apply K3. lia.
+    - cbn [locks set_rc]. rewrite F2. exact K1.
+    - intros b Hb. change (cur_locks (set_rc t4 (wrap64 (rc t4 + 1)))) with (cur_locks t4).
+      rewrite Hcl, K2. rewrite F1, A2 in Hb.
+      apply (cover_min (hp + 1)); [rewrite Hmin; lia|exact Hb]. }
+  split.
+  { unfold counted. cbn [cur set_rc].
+    change (cur_locks (set_rc t4 (wrap64 (rc t4 + 1)))) with (cur_locks t4).
+    rewrite Hcl, K5, F1, A5. exact Hcnt. }
+  split; [rewrite F1; exact A2|].
+  split; [intros k v; rewrite F1; apply A4|].
+  split; [rewrite F4, R3, T8; reflexivity|].
+  split; [congruence|]. split; [congruence|]. split; [congruence|]. split; [congruence|].
+  split; [exact F3|].
+  rewrite Hcl, K2, Hmin. lia.
+Qed.
+
+(* Lemma 4: fast_double_body when the migration is not deferred *)
+Theorem fast_double_body_immediate mode t :
+  settled t -> counted c t -> bhp (cur t) + 1 < 62 ->
+  (hashsize (bhp (cur t)) < kmax c \/
+   (mode = true /\ (length (cur_locks t) <= N.to_nat (kmax c))%nat)) ->
+  let t' := fast_double_body c hash mode t (bhp (cur t) + 1) in
+  settled t' /\ counted c t' /\ bhp (cur t') = bhp (cur t) + 1 /\
+  (forall k v, holds (cur t') k v <-> holds (cur t) k v) /\
+  rc t' = wrap64 (rc t + 1) /\ mlfn t' = mlfn t /\ mlfd t' = mlfd t /\ mhp t' = mhp t /\
+  workers t' = workers t /\ nrem t' = 0 /\
+  length (cur_locks t') = Nat.max (length (cur_locks t)) (N.to_nat (N.min (kmax c) (2 ^ (bhp (cur t) + 1)))).
+Proof.
+  intros St Hcnt Hhp Hcase.
+  destruct (N.lt_ge_cases (hashsize (bhp (cur t))) (kmax c)) as [L|G].
+  - apply fast_double_body_small; assumption.
+  - destruct Hcase as [L|[-> Hlen]]; [lia|].
+    apply fast_double_body_locked; assumption.
+Qed.
 
 End Resize.
